@@ -224,6 +224,7 @@ def run(cfg, segs=None, perm_seed=None, perm_kinds=None, budget=None, full=True,
                 state["nd"] = len(reg.delay_calls)
                 rec["exc"] = exc_view(exc) if exc is not None else {"type": "", "msg": "", "site": ""}
                 rec["raised"] = env.last_raised
+                rec["callexc"] = ""
                 steps.append(rec)
                 if exc is None and env.now * K > lim:
                     raise Budget()
